@@ -273,7 +273,7 @@ package beacon
 
 //@ func (*callbackStore).RemoveCallback(c, id)
 //@   props C12
-//@   flags lockcheck
+//@   flags lockcheck nonblocking
 //@   ensures [C12:removed-callback-worker-is-released] old(has(c.newJob, id)) ==> closed(old(c.newJob[id]))
 //@   ensures [C12:removed-callback-is-gone] !has(c.newJob, id) && !has(c.callbacks, id)
 //@   ensures [C12:remove-leaves-other-callbacks] forall k string :: k != id ==> has(c.newJob, k) == old(has(c.newJob, k)) && c.newJob[k] == old(c.newJob[k]) && has(c.callbacks, k) == old(has(c.callbacks, k))
